@@ -45,7 +45,12 @@ def harness(sym):
 
 def _body(sym, t, start):
     from queue import Empty
-    with engine_rig(sym, TEMPLATES[t], durations={"SetOut1": 2}) as rig:
+    from props.interp_common import TEMPLATES as INTERP_TEMPLATES
+    pcode = TEMPLATES[t] if t in TEMPLATES else INTERP_TEMPLATES[t]
+    n_ticks = N.get(t, 26)
+    ctl = sym.shard.get("control")
+    ctl_tick = sym.int("ctl_tick", 2, 10) if ctl else None
+    with engine_rig(sym, pcode, durations={"SetOut1": 2, "CmdA": 3, "CmdB": 2, "CmdC": 2}) as rig:
         e = rig.engine
         rig.now = start
         e.uod.hwl.mem["In1"] = 1
@@ -53,8 +58,12 @@ def _body(sym, t, start):
         last_value, last_time = {}, {}
         for tg in e._iter_all_tags():
             last_value[tg.name] = tg.get_value()
-        for i in range(N[t]):
+        for i in range(n_ticks):
             dt = sym.real(f"d{i}", 0.0, 5.0, lo_strict=True)
+            if ctl_tick is not None and ctl_tick == i:
+                rig.user(ctl)
+            if ctl_tick is not None and ctl in ("Pause", "Hold") and ctl_tick + 3 == i:
+                rig.user("Unpause" if ctl == "Pause" else "Unhold")
             if t == "outputs" and i == 9:
                 rig.user("Pause")
             if t == "outputs" and i == 11:
@@ -87,20 +96,27 @@ def _body(sym, t, start):
 
 
 def _shards(tier):
-    return [{"template": t} for t in TEMPLATES]
+    out = [{"template": t} for t in TEMPLATES]
+    if tier == "quick":
+        return out + [{"template": t, "control": "Pause"} for t in ("block_sim", "nested")] + [{"template": "block_sim", "control": "Stop"}]
+    from props.interp_common import TEMPLATES as INTERP_TEMPLATES
+    out += [{"template": t} for t in INTERP_TEMPLATES]
+    for c in ("Pause", "Hold", "Restart", "Stop"):
+        out += [{"template": t, "control": c} for t in list(TEMPLATES) + ["block", "nested", "watch_block", "alarm_block", "macro", "uod_in_macro"] if t in TEMPLATES or t in INTERP_TEMPLATES]
+    return out
 
 
 OBLIGATIONS = [Obligation(
     name="tag_times", kind="crosshair", harness=harness, shards=_shards,
-    cpu_budget={"quick": 300.0, "thorough": 1200.0},
+    cpu_budget={"quick": 300.0, "thorough": 4000.0},
     encoded=["openpectus.lang.exec.tags:Tag.set_value", "openpectus.lang.exec.tags:Tag.simulate_value", "openpectus.lang.exec.tags:Tag.stop_simulation",
              "openpectus.lang.exec.pinterpreter:PInterpreter.visit_BlockNode", "openpectus.lang.exec.pinterpreter:PInterpreter.visit_EndBlockNode",
              "openpectus.lang.exec.pinterpreter:PInterpreter.visit_EndBlocksNode", "openpectus.lang.exec.pinterpreter:PInterpreter.visit_SimulateNode",
              "openpectus.lang.exec.pinterpreter:PInterpreter.visit_SimulateOffNode", "openpectus.engine.engine:Engine.update_calculated_tags",
              "openpectus.engine.engine:Engine.notify_tag_updates"],
-    symbolic="every tick increment: arbitrary real in (0, 5] s; engine start time = wall clock at construction",
+    symbolic="every tick increment: arbitrary real in (0, 5] s; the tick of the user's Pause/Hold/Restart/Stop (2..10) in the shards that have one",
     bounds={"quick": "5 templates (block + simulate/simulate off; nested blocks + End blocks + Run counter + Base; output command + pause/unpause; a Watch's block waiting for the block lock held by the main flow; block in a re-arming Alarm), 14-24 ticks",
-            "thorough": "same"},
+            "thorough": "the 5 templates + every template of props/interp_common.py (sequences, nested blocks, watches, alarms, macros, UOD commands in macros / alarms), 14-26 ticks; plus Pause / Hold (3 ticks) / Restart / Stop at a solver-chosen tick 2..10 for 11 templates"},
     assumptions=["floats modelled as reals; counterexamples replayed with IEEE floats", "the update queue is drained after every tick",
                  "UOD callbacks stamp the tags they set with the current tick time (harness UOD does)", "fake hardware; log statements removed at import"],
 )]
@@ -108,6 +124,6 @@ OBLIGATIONS = [Obligation(
 MANIFEST = {
     "level": "model_checking",
     "text": "Symbolic execution (CrossHair/z3) of the real engine with every tick increment an arbitrary positive real: the reported time of each changed tag is compared with the symbolic tick time, so stamping with a tick number or a stale time is a solver-decided inequality, not a coincidence of sampled values.",
-    "note": "Trusted: CrossHair real-valued float model, z3; three templates, fixed pause schedule.",
+    "note": "Trusted: CrossHair real-valued float model, z3; quick: 5 templates + Pause / Stop at a solver-chosen tick; thorough: 24 templates and Pause / Hold / Restart / Stop at a solver-chosen tick.",
     "technique": "symbolic execution of the real engine (CrossHair + z3) with symbolic tick times, tag-update stream monitor, counterexample replay",
 }
